@@ -748,56 +748,112 @@ func r40DecodeTotal(c *core.Ctx) {
 		if f == nil {
 			continue
 		}
-		var recv types.Object
-		if f.Decl.Recv != nil && len(f.Decl.Recv.List[0].Names) == 1 {
-			recv = info.Defs[f.Decl.Recv.List[0].Names[0]]
-		}
 		nret, validated := 0, 0
 		bad := ""
-		core.InspectNoLit(f.Decl.Body, func(x ast.Node) bool {
-			ret, ok := x.(*ast.ReturnStmt)
-			if !ok {
-				return true
+		if f.SSA == nil || len(f.SSA.Params) == 0 {
+			continue
+		}
+		recvP := f.SSA.Params[0]
+		isValidate := func(v ssa.Value) bool {
+			call, ok := v.(*ssa.Call)
+			if !ok || call.Call.StaticCallee() == nil || core.StaticCalleeID(call) != "github.com/go-playground/validator/v10.Validate.Struct" || len(call.Call.Args) < 2 {
+				return false
 			}
-			nret++
-			if len(ret.Results) != 1 {
-				bad += fmt.Sprintf("return with %d results @%s; ", len(ret.Results), c.P.Pos(ret.Pos()))
-				return true
-			}
-			e := ast.Unparen(ret.Results[0])
-			switch v := e.(type) {
-			case *ast.CallExpr:
-				switch {
-				case core.IsCallTo(info, v, "errors.New", "fmt.Errorf"):
-				case core.IsCallTo(info, v, "github.com/go-playground/validator/v10.Validate.Struct") && len(v.Args) == 1 && core.ObjOf(info, v.Args[0]) == recv && recv != nil:
-					validated++
-				default:
-					bad += fmt.Sprintf("returns result of %s @%s; ", core.ExprStr(v.Fun), c.P.Pos(ret.Pos()))
+			a := call.Call.Args[1]
+			for {
+				switch x := a.(type) {
+				case *ssa.MakeInterface:
+					a = x.X
+					continue
+				case *ssa.ChangeInterface:
+					a = x.X
+					continue
 				}
-			case *ast.Ident:
-				if v.Name == "nil" && info.Uses[v] == types.Universe.Lookup("nil") {
-					bad += fmt.Sprintf("returns nil without validation @%s; ", c.P.Pos(ret.Pos()))
+				break
+			}
+			return a == recvP
+		}
+		// the block is entered only when a validate.Struct(receiver) result was nil
+		behindAcceptance := func(at *ssa.BasicBlock) bool {
+			for d := at; d != nil; d = d.Idom() {
+				i := core.BlockIf(d)
+				if i == nil {
+					continue
+				}
+				bo, ok := i.Cond.(*ssa.BinOp)
+				if !ok || (bo.Op != token.EQL && bo.Op != token.NEQ) {
+					continue
+				}
+				l, r := bo.X, bo.Y
+				if isNilConst(l) {
+					l, r = r, l
+				}
+				if !isNilConst(r) || !isValidate(l) {
+					continue
+				}
+				sx := d.Succs[1]
+				if bo.Op == token.EQL {
+					sx = d.Succs[0]
+				}
+				if (sx == at || sx.Dominates(at)) && len(sx.Preds) == 1 {
 					return true
 				}
-				obj := core.ObjOf(info, v)
-				guarded := false
-				for _, g := range guardsBefore(c.P, info, f.Decl.Body, ret) {
-					if g.IsTrue {
-						for _, cj := range conjuncts(g.Cond) {
-							if canon(cj) == v.Name+"!=nil" {
-								guarded = true
-							}
-						}
-					}
-				}
-				if !guarded || obj == nil {
-					bad += fmt.Sprintf("returns %s which may be nil @%s; ", v.Name, c.P.Pos(ret.Pos()))
-				}
-			default:
-				bad += fmt.Sprintf("returns %s @%s; ", core.ExprStr(e), c.P.Pos(ret.Pos()))
 			}
-			return true
-		})
+			return false
+		}
+		var classify func(v ssa.Value, at *ssa.BasicBlock, pos token.Pos, depth int)
+		classify = func(v ssa.Value, at *ssa.BasicBlock, pos token.Pos, depth int) {
+			switch x := v.(type) {
+			case *ssa.Call:
+				id := core.StaticCalleeID(x)
+				switch {
+				case id == "errors.New" || id == "fmt.Errorf":
+					return
+				case isValidate(x):
+					validated++
+					return
+				}
+				if provenNonNil(v, at, 0) {
+					return
+				}
+				bad += fmt.Sprintf("returns result of %s @%s; ", id, c.P.Pos(pos))
+				return
+			case *ssa.Const:
+				if x.IsNil() {
+					if behindAcceptance(at) {
+						validated++
+						return
+					}
+					bad += fmt.Sprintf("returns nil without validation @%s; ", c.P.Pos(pos))
+					return
+				}
+			case *ssa.Phi:
+				if depth < 4 {
+					for k, e := range x.Edges {
+						classify(e, x.Block().Preds[k], pos, depth+1)
+					}
+					return
+				}
+			}
+			if provenNonNil(v, at, 0) {
+				return
+			}
+			bad += fmt.Sprintf("returns %s which may be nil @%s; ", v.Name(), c.P.Pos(pos))
+		}
+		for _, b := range f.SSA.Blocks {
+			for _, in := range b.Instrs {
+				ret, ok := in.(*ssa.Return)
+				if !ok {
+					continue
+				}
+				nret++
+				if len(ret.Results) != 1 {
+					bad += fmt.Sprintf("return with %d results @%s; ", len(ret.Results), c.P.Pos(ret.Pos()))
+					continue
+				}
+				classify(ret.Results[0], b, ret.Pos(), 0)
+			}
+		}
 		c.Check(R, "success-only-via-validate/"+name, f.Decl.Pos(), bad == "" && validated >= 1,
 			fmt.Sprintf("%d returns: errors, or validate.Struct(receiver)", nret),
 			"a decoder can return success without running the struct validation: "+bad)
@@ -941,6 +997,109 @@ func r40DecodeTotal(c *core.Ctx) {
 	if ndec == 0 {
 		c.Bad(R, "decode-target-fresh-per-element/none", token.NoPos, "no per-element decode target found (floor 1)")
 	}
+	// (h) a pointer member of a decoded value is dereferenced only behind a test that it is there (the validator's
+	// "required" runs last; before it a missing or null key has left the pointer nil)
+	nder := 0
+	for _, f := range decodeFuncs {
+		if f.SSA == nil {
+			continue
+		}
+		k := 0
+		for _, b := range f.SSA.Blocks {
+			for _, in := range b.Instrs {
+				var base ssa.Value
+				switch x := in.(type) {
+				case *ssa.UnOp:
+					if x.Op == token.MUL {
+						base = x.X
+					}
+				case *ssa.FieldAddr:
+					base = x.X
+				case *ssa.IndexAddr:
+					base = x.X
+				}
+				ld, isLoad := base.(*ssa.UnOp)
+				if !isLoad || ld.Op != token.MUL {
+					continue
+				}
+				fa, isFA := ld.X.(*ssa.FieldAddr)
+				if !isFA {
+					continue
+				}
+				if _, isPtr := ld.Type().Underlying().(*types.Pointer); !isPtr {
+					continue
+				}
+				opt, _ := fa.X.Type().Underlying().(*types.Pointer)
+				if opt == nil || !strings.HasPrefix(core.TypeShort(opt.Elem()), "tms20.") {
+					continue
+				}
+				owner := opt.Elem()
+				k++
+				nder++
+				key := addrKey(fa)
+				proven := provenNonNil(ld, b, 0)
+				for d := b; d != nil && !proven; d = d.Idom() {
+					i := core.BlockIf(d)
+					if i == nil {
+						continue
+					}
+					bo, ok := i.Cond.(*ssa.BinOp)
+					if !ok || (bo.Op != token.EQL && bo.Op != token.NEQ) {
+						continue
+					}
+					l, r := bo.X, bo.Y
+					if isNilConst(l) {
+						l, r = r, l
+					}
+					tl, isL := l.(*ssa.UnOp)
+					if !isNilConst(r) || !isL || tl.Op != token.MUL || addrKey(tl.X) != key {
+						continue
+					}
+					s := d.Succs[0]
+					if bo.Op == token.EQL {
+						s = d.Succs[1]
+					}
+					if (s == b || s.Dominates(b)) && len(s.Preds) == 1 {
+						proven = true
+					}
+				}
+				st := owner.Underlying().(*types.Struct)
+				how := "dereferenced behind a nil test of the same member"
+				if !proven && strings.Contains(reflect.StructTag(st.Tag(fa.Field)).Get("validate"), "required") {
+					// or behind the validator's verdict on a member it requires
+					for _, vb := range f.SSA.Blocks {
+						for _, vin := range vb.Instrs {
+							vc, isC := vin.(*ssa.Call)
+							if !isC || vc.Call.StaticCallee() == nil || vc.Call.StaticCallee().Name() != "Struct" || !strings.Contains(core.FuncPkgPath(vc.Call.StaticCallee()), "validator") {
+								continue
+							}
+							for _, r := range *vc.Referrers() {
+								bo, isB := r.(*ssa.BinOp)
+								if !isB || (bo.Op != token.EQL && bo.Op != token.NEQ) || !(isNilConst(bo.X) || isNilConst(bo.Y)) {
+									continue
+								}
+								for _, rr := range *bo.Referrers() {
+									if i, isIf := rr.(*ssa.If); isIf {
+										s := i.Block().Succs[1]
+										if bo.Op == token.EQL {
+											s = i.Block().Succs[0]
+										}
+										if (s == b || s.Dominates(b)) && len(s.Preds) == 1 {
+											proven = true
+											how = "dereferenced after the validator accepted the value, which requires this member"
+										}
+									}
+								}
+							}
+						}
+					}
+				}
+				c.Check(R, fmt.Sprintf("decoded-pointer-checked-before-use/%s/%s#%d", f.Name, st.Field(fa.Field).Name(), k), in.Pos(), proven,
+					how, "the pointer member "+st.Field(fa.Field).Name()+" of a value being decoded is dereferenced without a test that it is there: a document without that key (or with null) panics instead of being rejected")
+			}
+		}
+	}
+	c.Note(R, "%d dereferences of pointer members on the decode graph", nder)
 	// explicit panics on the decode graph: none allowed in module code
 	npanic := 0
 	for _, f := range decodeFuncs {
@@ -1012,4 +1171,21 @@ func provenNonNil(v ssa.Value, at *ssa.BasicBlock, depth int) bool {
 		return true
 	}
 	return false
+}
+
+// addrKey names an address by its shape (parameter, field path), so that two reads of one member compare equal.
+func addrKey(a ssa.Value) string {
+	switch x := a.(type) {
+	case *ssa.FieldAddr:
+		return addrKey(x.X) + fmt.Sprintf(".%d", x.Field)
+	case *ssa.UnOp:
+		if x.Op == token.MUL {
+			return "*" + addrKey(x.X)
+		}
+	case *ssa.Parameter:
+		return "param:" + x.Name()
+	case *ssa.Alloc:
+		return fmt.Sprintf("alloc:%s@%d", x.Comment, x.Pos())
+	}
+	return fmt.Sprintf("%p", a)
 }
